@@ -1451,12 +1451,17 @@ func (app *App) performSwitchover(clusterState map[string]*nodestate.NodeState, 
 	app.logger.Info().Msgf("switchover: newMaster is %s", newMaster)
 
 	newMasterNode := app.cluster.Get(newMaster)
+	mostRecentNode := app.cluster.Get(mostRecent)
+	if newMasterNode == nil || mostRecentNode == nil {
+		// the registry is refreshed in the background: a frozen host may have left it meanwhile
+		return fmt.Errorf("switchover: %s or %s is not a registered cluster host any more", newMaster, mostRecent)
+	}
 
 	// catch up
 	app.logger.Info().Msg("switchover: phase 4: catch up if needed")
 	if newMaster != mostRecent {
 		app.logger.Info().Msgf("switchover: new master %s differs from most recent host %s, need to catch up", newMaster, mostRecent)
-		err := app.cluster.Get(mostRecent).SetOnline()
+		err := mostRecentNode.SetOnline()
 		if err != nil || app.emulateError("catchup_set_most_recent_online") {
 			return err
 		}
@@ -1492,7 +1497,7 @@ func (app *App) performSwitchover(clusterState map[string]*nodestate.NodeState, 
 
 	// turn slaves to the new master
 	app.logger.Info().Msg("switchover: phase 5: turn to the new master")
-	err = app.cluster.Get(newMaster).SetOnline()
+	err = newMasterNode.SetOnline()
 	if err != nil {
 		return fmt.Errorf("got error on setting new master %s online %w", newMaster, err)
 	}
